@@ -261,11 +261,11 @@ PROPS['C06'] = dict(
     rule=RULE + '; nfp = k compared with nfp = 1 at k*nphi for odd k', partial=EQV_PARTIAL)
 PROPS['C07'] = dict(
     lean=['QscProofs.Eqv', 'QscProofs.C15', 'QscProofs.C13', 'QscProofs.C13Cyc', 'QscProofs.C07Axis', 'QscProofs.C20Spec', 'QscProofs.EqvGrid', 'QscProofs.C05Sigma', 'QscProofs.C06Sigma'], theorems=eqv_theorems(EQV_ALL) + ['C05Sigma.' + t for t in ('residual_reversal_covariant', 'solution_reversal', 'residual_mirror_covariant', 'residual_reversal_mirror_covariant', 'gridD_anticomm_rev', 'residual_reversal_covariant_grid')] + ['C06Sigma.gridDw_anticomm_rev', 'C06Sigma.residual_reversal_covariant_gridw'] + ['EqvGrid.toep_neg', 'EqvGrid.curvature_reversal', 'EqvGrid.X2c_reversal', 'EqvGrid.Z2c_reversal', 'EqvGrid.d2_l_d_phi2_reversal', 'EqvGrid.DMerc_times_r2_reversal', 'C15.lasym_iff', 'C15.lasym_false_iff', 'C13.counter_flipZ', 'C13.counter_reverse', 'C13Cyc.counter_field_reversal', 'C07Axis.f0_reversal', 'C07Axis.f1_reversal', 'C07Axis.f2_reversal', 'C07Axis.f3_reversal', 'C07Axis.f0_mirror', 'C20Spec.toep_antisymm'],
-    gen=EQV_ALL, eqv=EQV_ALL, corr=corr_merge(corr_generated(['Axis', 'R1d', 'GradB', 'R2', 'Mercier', 'GGB', 'R3', 'RSing']), corr_hand_kernels(['vmec', 'helicity'])),
+    gen=EQV_ALL, eqv=EQV_ALL, corr=corr_merge(corr_generated(['Axis', 'R1d', 'GradB', 'R2', 'Mercier', 'GGB', 'R3', 'RSing']), corr_hand_kernels(['vmec', 'helicity', 'axis'])),
     oracle=oracle_multi(oracles.oracle_C07, lambda objs, st: oracles.oracle_helicity_kernel(st, 7)), rule=RULE, partial=EQV_PARTIAL)
 PROPS['C08'] = dict(
     lean=['QscProofs.Eqv', 'QscProofs.EqvUse', 'QscProofs.C06Sigma', 'QscProofs.C07Axis'], theorems=eqv_theorems(EQV_ALL) + ['C07Axis.f0_scale', 'C07Axis.f1_scale', 'EqvUse.DMerc_units', 'C06Sigma.rhs_scalePar', 'C06Sigma.residual_scale_invariant', 'C06Sigma.solution_scale_iff'],
-    gen=EQV_ALL, eqv=EQV_ALL, corr=corr_generated(['Axis', 'R1d', 'GradB', 'R2', 'Mercier', 'GGB', 'R3', 'RSing']),
+    gen=EQV_ALL, eqv=EQV_ALL, corr=corr_merge(corr_generated(['Axis', 'R1d', 'GradB', 'R2', 'Mercier', 'GGB', 'R3', 'RSing']), corr_hand_kernels(['axis'])),
     oracle=oracle_multi(oracles.oracle_C08), rule=RULE, partial=EQV_PARTIAL[1:] + ['r_singularity: the root selection is a hand model; its scaling follows from the scaling of the coefficients (proved) given that the roots scale (contract of polyroots)'])
 
 PROPS['C09'] = dict(
